@@ -66,6 +66,17 @@ func (c *shmConnState) close() {
 	}
 }
 
+// drainStreamInput discards the input stream that a stream-method client has
+// already written behind its request. The shm error responses below are sent
+// before dispatch, so without this the ticks / exchange batches of a refused
+// stream call stay on the connection and the next ReadRequest takes them for a
+// request (the same reason serveStream drains after every init failure).
+func (s *Server) drainStreamInput(r io.Reader, method string) {
+	if info, ok := s.methods[method]; ok && info.Type != MethodUnary {
+		drainInputStream(r)
+	}
+}
+
 func (s *Server) RunStdio() {
 	// Ignore SIGPIPE so writes to closed pipes (stderr logging, stdout IPC)
 	// return errors instead of killing the process. Transport errors are
@@ -187,6 +198,7 @@ func (s *Server) serveOne(ctx context.Context, r io.Reader, w io.Writer, shmConn
 				emptySchema := arrow.NewSchema(nil, nil)
 				s.logIPCWriteErr("error-response", req.Method,
 					writeErrorResponse(w, emptySchema, rpcErr, s.serverID, req.RequestID, s.debugErrors))
+				s.drainStreamInput(r, req.Method)
 				return nil
 			}
 			req.Batch.Release()
@@ -221,6 +233,7 @@ func (s *Server) serveOne(ctx context.Context, r io.Reader, w io.Writer, shmConn
 		emptySchema := arrow.NewSchema(nil, nil)
 		s.logIPCWriteErr("error-response", req.Method,
 			writeErrorResponse(w, emptySchema, rpcErr, s.serverID, req.RequestID, s.debugErrors))
+		s.drainStreamInput(r, req.Method)
 		return nil
 	}
 
